@@ -122,6 +122,7 @@ def campaign(pid, tier, variant="os", sb=4096, nsc=None, models=True):
     nsc = nsc or (90 if tier == "quick" else 1500)
     scs = [gen_scenario(rnd, i, maxfrag, frag, procs=(variant != "inprocess")) for i in range(nsc)]
     validated = 0
+    proto_events = [0]
     B = 30 if tier == "quick" else 100
     for b in range(0, nsc, B):
         if len(violations) >= 5:
@@ -194,6 +195,24 @@ def campaign(pid, tier, variant="os", sb=4096, nsc=None, models=True):
             validated += len(chunk)
             states += tr.distinct
             transitions += tr.generated
+        # the same run at system-call level: every send/receive follows the per-message packet protocol
+        import protocheck
+        pcompact = os.path.join(wd, "fifo-%d.proto.ndjson" % b)
+        pevs, overflow = protocheck.convert(raw, pcompact)
+        if variant != "inprocess" and pevs and not overflow:
+            pr, preject = protocheck.validate(wd, "fifo-%d" % b, pcompact)
+            require_ok(pr, "ProtoTrace")
+            if pr.violation or preject:
+                rp = write_replay(pid, "fifo-proto-%d" % b, {"property": pid, "kind": "fifo-proto", "variant": variant, "sb": sb,
+                                                            "scenarios": chunk, "violation": pr.violation, "reject": preject})
+                violations.append({"what": "recorded system calls are not the packet protocol of Transport.tla (a fragmented message "
+                                           "without a socket pair of its own, a follow-up on another socket, the sender's copy of the "
+                                           "dedicated receiving end still open, or a receiver reading the rest elsewhere): %s %s" % (
+                                               pr.violation or "", (preject or "")[:300]), "replay": rp, "key": "fifo-proto"})
+            else:
+                states += pr.distinct
+                transitions += pr.generated
+                proto_events[0] += len(pevs)
         if len(samples) < 2:
             samples.append({"scenario": chunk[0], "events_head": evs[:20]})
         for f in (raw, raw + ".seq"):
@@ -202,5 +221,6 @@ def campaign(pid, tier, variant="os", sb=4096, nsc=None, models=True):
     log("  fifo[%s sb=%s]: %d scenarios, %d validated against FifoTrace.tla, %d violations" % (
         variant, sb, nsc, validated, len(violations)))
     cov = {"states": states, "transitions": transitions, "traces_validated_against_impl": validated, "evaluations": nsc,
-           "distinct_nontrivial": len(distinct), "samples": samples}
+           "distinct_nontrivial": len(distinct), "samples": samples,
+           "syscall_events_validated_against_ProtoTrace": proto_events[0]}
     return {"coverage": cov, "violations": violations}
